@@ -644,6 +644,35 @@ def check_property(pid, tier='quick', seed=0, witness_hook=None):
             print('VIOLATION property=%s replay=%s' % (pid, rp))
             vio_out.append('bounded-supplement(%s)' % sres['kind'])
             exit_code = 1
+    # R7 bounded checks (thorough tier; DESIGN section 3 R7): the ASSUMED contract of every lifted iterator one-liner
+    # in this property's functions is evaluated against the snippet's current text on all small inputs.  A refuted
+    # contract is a violation with the failing input; an un-runnable check is only noted in evidence.
+    r7_checks = []
+    if tier == 'thorough':
+        r7_checks = r7_bounded_checks(pid, results)
+        for c in r7_checks:
+            if c.get('status') != 'failed':
+                continue
+            ce = c.get('counterexample') or {}
+            obl = 'r7/%s' % c.get('helper')
+            msg = ('the assumed contract of lifted snippet %s (%s, %s) is refuted by input %s: %s (got %s, contract says %s)' % (
+                c.get('helper'), c.get('site') or c.get('fn'), c.get('prelude'), json.dumps(ce.get('input'), ensure_ascii=False)[:300],
+                ce.get('explain'), json.dumps(ce.get('real'), ensure_ascii=False)[:120], json.dumps(ce.get('expected'), ensure_ascii=False)[:120]))
+            rp = os.path.join(REPLAYS, '%s-r7-%s.json' % (pid, re.sub(r'[^\w.+-]+', '_', str(c.get('helper')))))
+            rcmd = c.get('replay_cmd')
+            with open(rp, 'w') as fh:
+                json.dump({'property': pid, 'obligation': obl, 'bounded': True, 'site': c.get('site'), 'site_fn': c.get('fn'),
+                           'verifier': 'R7 bounded check (/verif/r7): the snippet text of the current tree, compiled against the real crate, '
+                                       'against an executable transcription of the contract that Verus assumes for it',
+                           'verifier_message': msg, 'snippet': c.get('snippet'), 'snippet_changed': c.get('snippet_changed'),
+                           'bound': c.get('bound'), 'inputs_tried': c.get('inputs'), 'spans': [],
+                           'counterexample': {'kind': None, 'cmd': rcmd, 'input': ce.get('input'), 'real': ce.get('real'),
+                                              'expected': ce.get('expected'), 'explain': ce.get('explain'),
+                                              'replay_cmd': ' '.join(_shq(x) for x in rcmd) if rcmd else None}}, fh, indent=1)
+            print('FAILED OBLIGATION %s: %s' % (obl, msg))
+            print('VIOLATION property=%s replay=%s' % (pid, rp))
+            vio_out.append(obl)
+            exit_code = 1
     if exit_code == 0 and undecided:
         for u in undecided:
             print('UNDECIDED property=%s %s' % (pid, u))
@@ -657,7 +686,12 @@ def check_property(pid, tier='quick', seed=0, witness_hook=None):
                 if exit_code == 0:
                     exit_code = 2
     if tier == 'thorough' and exit_code == 0:
-        unstable = [e for e in extra_runs if e['status'] != 'ok' and not known_hits]
+        # a seed run is unstable only if it fails something the baseline run of that unit did not fail
+        base_fail = {}
+        for r in results:
+            base_fail[r.unit] = set(f['obligation'] for f in r.failures)
+        unstable = [e for e in extra_runs if e['status'] not in ('ok',) and
+                    (e['status'] in ('error', 'undecided') or not set(e['failures']) <= base_fail.get(e['unit'], set()))]
         if unstable:
             for e in unstable:
                 print('UNDECIDED property=%s unstable proof: %s %s -> %s' % (pid, e['unit'], e['config'], e['status']))
@@ -683,6 +717,7 @@ def check_property(pid, tier='quick', seed=0, witness_hook=None):
             'extra_runs': extra_runs,
             'second_backend_runs': cvc5_runs,
             'bounded_supplement': [{k: v for k, v in x.items() if k in ('kind', 'found', 'evaluations', 'explain', 'error', 'tried_archives', 'wall_s')} for x in supplement],
+            'r7_bounded_checks': r7_checks,
             'mutants_expected': len([m for m in mutant_results if m['result'] != 'not-applicable']),
             'mutants_detected': len([m for m in mutant_results if m['result'] == 'detected']),
             'mutants': mutant_results,
@@ -701,6 +736,56 @@ def check_property(pid, tier='quick', seed=0, witness_hook=None):
     print('%s: units=%s obligations=%d discharged=%d functions=%d known=%d violations=%d undecided=%d wall=%.1fs exit=%d' % (
         pid, ','.join(units), obligations, ev['coverage']['discharged'], len(fn_list), len(known_hits), len(vio_out), len(undecided), wall, exit_code))
     return exit_code
+
+
+def _shq(x):
+    import shlex
+    return shlex.quote(str(x))
+
+
+def r7_bounded_checks(pid, results):
+    """DESIGN section 3 R7 (thorough tier).  Runs /verif/r7/run.py for the units of this property and keeps the lifted
+    helpers that sit in a function carrying a clause of `pid` (every helper of a unit that could not be generated).
+    Returns the driver's records, trimmed; never raises: an un-runnable check is a record with status `skipped`."""
+    keep_keys = ('helper', 'unit', 'fn', 'prelude', 'status', 'inputs', 'bound', 'counterexample', 'site', 'snippet',
+                 'snippet_sha256', 'snippet_changed', 'pinned', 'note', 'observations', 'see_also', 'constants_note',
+                 'replay_cmd', 'wall_s')
+    drv = os.path.join(VERIF, 'r7', 'run.py')
+    units = [r.unit for r in results]
+    if not units:
+        return []
+    if not os.path.exists(drv):
+        return [{'helper': '*', 'status': 'skipped', 'note': 'un-runnable: %s is missing' % drv}]
+    try:
+        p = subprocess.run([sys.executable, drv, '--units', ','.join(units)], stdout=subprocess.PIPE, stderr=subprocess.PIPE,
+                           timeout=3000, cwd=VERIF)
+    except Exception as e:  # timeout, exec failure
+        return [{'helper': '*', 'status': 'skipped', 'note': 'un-runnable: %r' % e}]
+    recs = []
+    for ln in p.stdout.decode('utf-8', 'replace').split('\n'):
+        if ln.startswith('{'):
+            try:
+                recs.append(json.loads(ln))
+            except ValueError:
+                pass
+    if p.returncode != 0 and not recs:
+        return [{'helper': '*', 'status': 'skipped', 'note': 'un-runnable: driver rc=%s: %s' % (p.returncode, p.stderr.decode('utf-8', 'replace')[-400:])}]
+    tagged = {}
+    for r in results:
+        if r.meta is None or not r.gen_path or not os.path.exists(r.gen_path):
+            tagged[r.unit] = None      # the unit could not be generated: every lifted helper of it is relevant
+            continue
+        try:
+            tf = tagged_functions(r.meta, pid, open(r.gen_path).read())
+            tagged[r.unit] = set('%s::%s' % (f['file'], f['name']) for f in tf)
+        except Exception:
+            tagged[r.unit] = None
+    out = []
+    for c in recs:
+        t = tagged.get(c.get('unit'), set())
+        if t is None or c.get('fn') in t:
+            out.append({k: c[k] for k in keep_keys if k in c})
+    return out
 
 
 def fallback_witness(pid, unit, reason, witness_hook):
